@@ -87,7 +87,7 @@
                (array/push LOG e)
                (mk-tab e only))))))
   (when (or (nil? only) (index-of "~" only))
-    (put t :~ (fn [a] (def e (string "~(" (canon a) ")")) (array/push LOG e) (mk-tab e only))))
+    (put t (keyword "~") (fn [a] (def e (string "~(" (canon a) ")")) (array/push LOG e) (mk-tab e only))))
   t)
 
 (defn arg [i]
